@@ -4,7 +4,10 @@
 mod c01;
 mod c02;
 mod c03;
+mod c04;
 mod c06;
+mod c07;
+mod c08;
 mod c10;
 mod cookie;
 mod mk;
@@ -29,7 +32,10 @@ fn main() {
         "C01" => c01::run_prop(&cli),
         "C02" => c02::run_prop(&cli),
         "C03" => c03::run_prop(&cli),
+        "C04" => c04::run_prop(&cli),
         "C06" => c06::run_prop(&cli),
+        "C07" => c07::run_prop(&cli),
+        "C08" => c08::run_prop(&cli),
         "C10" => c10::run_prop(&cli),
         other => {
             println!("[{other}] INCONCLUSIVE: vp-conn does not serve this property");
